@@ -1,6 +1,7 @@
 import DimodProofs.SymTree
 import DimodProofs.SymInfo
 import DimodProofs.SymStore
+import DimodProofs.SymStoreMore
 
 /-! # C06 — symbolic arithmetic on models is pointwise arithmetic on energies
 
@@ -78,6 +79,21 @@ theorem operands_unchanged (h h' : Store) (a b : Nat) (q : Rat) (p : List Instr)
     (hp : p ∈ nonInplacePrograms a b q h.length) (he : exec h p = .ok h') :
     ∀ j, j < h.length → h'[j]? = h[j]? :=
   exec_frame p h h' h.length (Nat.le_refl _) (nonInplace_writes_fresh a b q h.length p hp) he
+
+/-- **operands_unchanged, the remaining forms**: `quicksum` over any number of items (deep copy of the first, `+=` of the
+    others, also when a `+=` falls back on the promoting `+`), `** 2` (the same object as both factors), and the operators
+    of the CQM expression views (`view ± model`, `view ± BQM`, `view ± number`, `model ± view`, `number − view`: a fresh
+    `QuadraticModel()` is filled from the view first) allocate their result and mutate only what they allocated: every
+    object that existed before the call is the same afterwards -/
+theorem operands_unchanged_more (h h' : Store) (a b : Nat) (rest : List Nat) (q : Rat) (p : List Instr)
+    (hp : p ∈ moreNonInplacePrograms a b rest q h.length) (he : exec h p = .ok h') :
+    ∀ j, j < h.length → h'[j]? = h[j]? :=
+  exec_frame p h h' h.length (Nat.le_refl _) (more_write_fresh a b rest q h.length p hp) he
+
+/-- `quicksum([x, y])` computes `copy(x).update(y)` into the fresh object (the value `build` uses for two items) -/
+theorem quicksum_program_refines (h : Store) (a b : Nat) (x y : Model) (ha : h[a]? = some x) (hb : h[b]? = some y) :
+    (exec h (progQuicksum a [b] h.length)).map (fun h' => h'[h.length]?) = (upd x y).map some :=
+  exec_quicksum_two h a b x y ha hb
 
 /-- the same-class `+` program computes `mAdd` (the value `build` uses) into the fresh object -/
 theorem add_program_refines (h : Store) (a b : Nat) (x y : Model) (ha : h[a]? = some x) (hb : h[b]? = some y)
